@@ -55,7 +55,9 @@ func checkPass(ctx *base.EntryContext) (bool, *Rule) {
 	for _, breaker := range breakers {
 		passed := breaker.TryPass(ctx)
 		if !passed {
-			return false, breaker.BoundRule()
+			// (the rule as it was last loaded: a breaker kept for a rule that came again with the
+			// same fields still holds the older object)
+			return false, ruleInForceOf(breaker)
 		}
 	}
 	return true, nil
